@@ -125,6 +125,14 @@ def _run_marg(case):
     for k, v in snap.items():
         if not np.array_equal(np.asarray(getattr(p, k)), v):
             fails.append(Failure("marginal:operand_mutated", f"get_marginal changed the operand's {k}"))
+    # the marginal is an object of its own: replacing one of ITS components in place must not reach the operand
+    newc = {"Sigma": np.eye(len(dims))[None] * 1.7, "mu": np.full((1, len(dims)), 0.3)}
+    ok, _ = lib(fails, "marginal.update_result", lambda: m.update(jnp.array([0]), libx.make_measure(kind, newc)))
+    if ok:
+        for k, v in snap.items():
+            if not np.array_equal(np.asarray(getattr(p, k)), v):
+                fails.append(Failure("marginal:operand_changed_via_result", f"updating the marginal in place changed the operand's {k}"))
+                break
     return fails
 
 
